@@ -21,6 +21,7 @@ type Config struct {
 	TimeoutMs     int
 	MaxPaths      int
 	Trace         bool
+	TraceSamples  int
 }
 
 type deferred struct {
